@@ -809,11 +809,14 @@ class Fxp():
         # convert to (numpy) ndarray
         if isinstance(val, (list, tuple)):
             _val = np.array(val)
-            if _val.dtype.kind in 'fu':
+            if _val.dtype.kind in 'fuO':
                 # lists of python integers beyond the int64 range must not be converted to float nor to unsigned 64 bits
                 _obj_val = np.array(val, dtype=object)
                 if _obj_val.shape == _val.shape and all(isinstance(v, int) for v in _obj_val.flat):
                     _val = _obj_val
+                elif _val.dtype.kind in 'fO' and _obj_val.shape == _val.shape and all(isinstance(v, (int, np.integer)) for v in _obj_val.flat):
+                    # numpy integer scalars next to python integers beyond their range: all of them are integers, not floats
+                    _val = np.array([int(v) for v in _obj_val.flat], dtype=object).reshape(_obj_val.shape)
             val = _val
         else:
             val = np.array(val)
